@@ -280,9 +280,9 @@ def rule_point_object_layout(rep, tier, rule="P-layout"):
             lo, hi = I.getattr(back, "minTime"), I.getattr(back, "maxTime")
             if not (isinstance(lo, Lin) and lo.const == F(1, 8) and isinstance(hi, Lin) and hi.const == F(7, 4)):
                 problems.append("span (%r, %r), expected (0.125, 1.75)" % (lo, hi))
-            got = [[x.const if isinstance(x, Lin) else x for x in I.iterate(row)] for row in I.iterate(I.getattr(back, "pointList"))]
-            if got != [list(p_) for p_ in pts]:
-                problems.append("points %s, expected %s" % (got, [list(p_) for p_ in pts]))
+            got = [[float(x.const) if isinstance(x, Lin) and x.is_const() else x for x in I.iterate(row)] for row in I.iterate(I.getattr(back, "pointList"))]
+            if got != [[float(x) for x in p_] for p_ in pts]:
+                problems.append("points %s, expected %s" % (got, [[float(x) for x in p_] for p_ in pts]))
         rep.check(not problems, rule, sv.short + " / " + rd.short, what, ok="class, span and every point come back", bad="; ".join(problems))
     # long ("normal") text form, as Praat itself writes it (transcribed from the manual; praatio only reads it)
     LONG = {
@@ -320,18 +320,113 @@ def rule_point_object_layout(rep, tier, rule="P-layout"):
     rep.floor(rule, 6)
 
 
+def rule_klatt_layout(rep, tier, rule="K-layout"):
+    """Klattgrid.save followed by openKlattgrid, interpreted on an exemplar KlattGrid with a virtual file (nothing
+    touches the disk): the hierarchy (plain tiers, a null tier, a container with two intermediate tiers and their
+    sub-tiers), every span and every point come back.  Values are chosen for the hard cases of the writer's number
+    clean-up and the reader's field slicing: integer-valued floats, 0.0, exponent notation with an exponent ending
+    in 0, several digits in the last value of each section."""
+    idx = common.ctx()
+    st = State([("0", Lin.num(0))], [0])
+    F = Fraction
+
+    def fl(x):
+        return Lin.num(F(x)).as_float()
+
+    def pts(rows):
+        return Lst([Tup([fl(t), fl(v)]) for t, v in rows])
+    lo, hi = fl(0.125), fl(1.75)
+    plain = [("phonation", []), ("pitch", [(0.25, 120.5), (1.5, 3.28e-20), (1.625, 0.0)]), ("flutter", []),
+             ("voicingAmplitude", [(0.5, 60.0), (0.75, 1.29e+20), (1.0, 12345.678)])]
+    subs = {"formants": [("formants [1]", [(0.25, 550.25), (0.5, 1234.0)]), ("formants [2]", [(0.25, 1500.0), (0.375, 98.765)])],
+            "bandwidths": [("bandwidths [1]", [(0.75, 65.5), (1.0, 7.5e-10)])]}
+    sv = idx.get("Klattgrid.save")
+    rd = idx.get("klattgrid:openKlattgrid")
+    for q in ("Klattgrid.save", "klattgrid:openKlattgrid", "klattgrid:_openNormalKlattgrid", "klattgrid:_proccessContainerTierInput", "klattgrid:_getSectionHeader",
+              "klattgrid:_processSectionData", "klattgrid:_buildEntries", "data_classes.klattgrid:_cleanNumericValues", "data_classes.klattgrid:toIntOrFloat"):
+        if idx.try_get(q):
+            rep.functions.add(idx.get(q).qual)
+    what = "exemplar KlattGrid (4 plain tiers incl. a null tier, oral_formants{formants[1,2], bandwidths[1]})"
+    I = Interp(idx, st, overrides=default_overrides())
+    I.MAX_STEPS = 3000000
+    try:
+        kg = I.instantiate(idx.cls("Klattgrid"), [], {})
+        for name, rows in plain[:3]:
+            I.call_value(I.getattr(kg, "addTier"), [I.instantiate(idx.cls("KlattPointTier"), [name, pts(rows), lo, hi], {})], {})
+        kct = I.instantiate(idx.cls("KlattContainerTier"), ["oral_formants"], {})
+        for kname, members in subs.items():
+            kit = I.instantiate(idx.cls("KlattIntermediateTier"), [kname], {})
+            for sname, rows in members:
+                I.call_value(I.getattr(kit, "addTier"), [I.instantiate(idx.cls("KlattSubPointTier"), [sname, pts(rows), lo, hi], {})], {})
+            I.call_value(I.getattr(kct, "addTier"), [kit], {})
+        I.call_value(I.getattr(kg, "addTier"), [kct], {})
+        name, rows = plain[3]
+        I.call_value(I.getattr(kg, "addTier"), [I.instantiate(idx.cls("KlattPointTier"), [name, pts(rows), lo, hi], {})], {})
+        I.call_value(I.getattr(kg, "save"), ["out.KlattGrid"], {})
+        back = I.call_function(rd, ["out.KlattGrid"], {})
+    except PyRaise as e:
+        rep.refuted(rule, sv.short + " / " + rd.short, what, "save followed by open raises %s: the written text does not have the layout the reader consumes" % e.name)
+        return
+    except Undecided as e:
+        rep.undecided(rule, sv.short + " / " + rd.short, what, str(e))
+        return
+    problems = []
+
+    def num(v):
+        return v.const if isinstance(v, Lin) and v.is_const() else v
+
+    def check_points(label, tierobj, rows):
+        got = [[float(num(x)) if isinstance(num(x), F) else num(x) for x in I.iterate(e)] for e in I.iterate(I.getattr(tierobj, "entries"))]
+        exp = [[float(t), float(v)] for t, v in rows]  # compared as the doubles the numerals denote
+        if got != exp:
+            problems.append("%s: points %s, written %s" % (label, got, rows))
+        sp = (num(I.getattr(tierobj, "minTimestamp")), num(I.getattr(tierobj, "maxTimestamp")))
+        if sp != (F(0.125), F(1.75)):
+            problems.append("%s: span %s, written (0.125, 1.75)" % (label, tuple(float(x) if isinstance(x, F) else x for x in sp)))
+    if not isinstance(back, ObjVal):
+        problems.append("the reader returned %r" % (back,))
+    else:
+        names = [str(n) for n in I.iterate(I.getattr(back, "tierNames"))]
+        want_names = [n for n, _ in plain[:3]] + ["oral_formants", plain[3][0]]
+        if names != want_names:
+            problems.append("tiers %s, written %s" % (names, want_names))
+        else:
+            for name, rows in plain:
+                t = I.call_value(I.getattr(back, "getTier"), [name], {})
+                if t.cls.name != "KlattPointTier":
+                    problems.append("%s comes back as %s" % (name, t.cls.name))
+                else:
+                    check_points(name, t, rows)
+            c = I.call_value(I.getattr(back, "getTier"), ["oral_formants"], {})
+            if c.cls.name != "KlattContainerTier":
+                problems.append("oral_formants comes back as %s" % c.cls.name)
+            else:
+                inames = [str(n) for n in I.iterate(I.getattr(c, "tierNameList"))]
+                if inames != list(subs):
+                    problems.append("intermediate tiers %s, written %s" % (inames, list(subs)))
+                else:
+                    for kname, members in subs.items():
+                        kit = I.getattr(c, "tierDict").d[kname]
+                        snames = [str(n) for n in I.iterate(I.getattr(kit, "tierNameList"))]
+                        if snames != [n for n, _ in members]:
+                            problems.append("%s holds %s, written %s" % (kname, snames, [n for n, _ in members]))
+                            continue
+                        for sname, rows in members:
+                            check_points(sname, I.getattr(kit, "tierDict").d[sname], rows)
+    rep.check(not problems, rule, sv.short + " / " + rd.short, what, ok="hierarchy, spans and every point come back", bad="; ".join(problems[:4]))
+    rep.floor(rule, 1)
+
+
 def run(rep, tier):
-    rep.rule("S-sentinel", "dataflow from list appends to slice upper bounds in klattgrid.py: the end bound of every section slice is the text length or an un-offset section index (never -1 / next-1)")
-    rep.rule("N-exact", "every number the Klatt and point-object writers emit is repr(); every number read is float() of the whole stripped field; field bounds lose no character")
     rep.rule("N-clean", "_cleanNumericValues and toIntOrFloat, interpreted on exemplar rows, keep the denoted number (also for tiny, huge, zero and integer values)")
     rep.rule("M-modify", "modifySubtiers / modifyValues interpreted on a generic container: function applied exactly once per value of the addressed tiers, times and other tiers untouched")
     rep.rule("B2-save-order", "Klattgrid.save and PointObject.save compute the whole text before opening the destination")
+    rep.rule("K-layout", "Klattgrid.save then openKlattgrid interpreted on an exemplar KlattGrid with a virtual file: the tier hierarchy, every span and every point come back (integer-valued floats, 0.0, exponent notation, multi-digit last values)")
     rep.rule("P-layout", "PointObject.save then open1D/2DPointObject interpreted on exemplar objects (0-3 points, dyadic values) with a virtual file: class, span and points come back")
     rep.not_decided.append("digit-for-digit identity as a behaviour of the whole reader (it needs the section scanner to be right about where fields are, for every file)")
     rep.not_decided.append("long/short equality of point objects beyond the field-bound rules")
-    rule_sentinels(rep)
-    rule_exact_numbers(rep)
     rule_clean_numeric(rep, tier)
     rule_modify(rep)
     rule_save_order(rep, ["Klattgrid.save", "PointObject.save"])
+    rule_klatt_layout(rep, tier)
     rule_point_object_layout(rep, tier)
